@@ -192,6 +192,171 @@ def run_stress(rep, tier, seed, n, only=None, tag="stress", test=None):
     return "ok", "", obs
 
 
+# --------------------------------------------------------------------------- stream "sched": schedule exploration
+
+SCHED = {
+    "name": "sched", "pkg": "./internal/rules", "test": "TestVerifC07Sched",
+    "eval_module": "Run.Eval_C07Sched", "check_term": "check_sched repo_skel",
+    "n_quick": 900, "n_thorough": 20000, "shard": 100, "timeout": 1800,
+}
+INSTR_GO = os.path.join(OUTD, "repository_impl_instrumented.go")
+INSTR_JSON = os.path.join(OUTD, "instr.json")
+
+
+def gen_instr():
+    """rebuild harness/tools/instr and write the instrumented copy of repository_impl.go of the checked tree"""
+    os.makedirs(OUTD, exist_ok=True)
+    tool = os.path.join(OUTD, "instr")
+    rc, o = vf.sh(["go", "build", "-o", tool, "."], cwd=os.path.join(vf.HARNESS, "tools", "instr"), env=vf.GOENV, timeout=600)
+    if rc != 0:
+        return False, "instrumenter does not build: " + o[-1500:]
+    rc, o = vf.sh([tool, "-repo", vf.REPO, "-file", SKEL_SRC, "-type", "repository", "-out", INSTR_GO, "-json", INSTR_JSON],
+                  timeout=120)
+    if rc != 0:
+        return False, "instrumenter failed on %s: %s" % (SKEL_SRC, o[-1500:])
+    return True, "instrumented copy " + INSTR_GO
+
+
+def sched_overlay():
+    rep = {
+        os.path.join(vf.REPO, "internal/zzverif/vf/vf.go"): os.path.join(vf.HARNESS, "vf/vf.go"),
+        os.path.join(vf.REPO, "internal/zzverif/sched/sched.go"): os.path.join(vf.HARNESS, "sched/sched.go"),
+        os.path.join(vf.REPO, "internal/rules/zz_verif_c07_test.go"): os.path.join(vf.HARNESS, "c07/c07_test.go"),
+        os.path.join(vf.REPO, "internal/rules/zz_verif_c07_sched_test.go"): os.path.join(vf.HARNESS, "c07/c07_sched_test.go"),
+        os.path.join(vf.REPO, SKEL_SRC): INSTR_GO,       # the instrumented copy is compiled INSTEAD of the original
+    }
+    path = os.path.join(OUTD, "overlay_sched.json")
+    with open(path, "w") as f:
+        json.dump({"Replace": rep}, f, indent=1)
+    return path
+
+
+def skel_preamble():
+    """the regenerated skeleton without its closing Example: pasted into the case files, so that the cases are
+    evaluated against the skeleton of the CHECKED tree also when it does not pass wf_skel / for other checkouts"""
+    src = open(GEN).read()
+    i = src.find("Example repo_skel_wf")
+    return src[:i] if i >= 0 else src
+
+
+SCHED_KINDS = {200: "data-race-in-explored-schedule", 300: "non-linearizable-schedule",
+               400: "deadlock-in-explored-schedule", 500: "crash-in-explored-schedule"}
+TIE_CODES = {101: "the events logged for an operation are not a path of its method in the skeleton",
+             102: "invocation while an operation of the thread is in flight", 103: "response before the path was used up",
+             104: "a logged event is not the next event of the skeleton path, or concerns another object than the model's",
+             105: "the skeleton semantics does not allow the logged event at this point (mutex state / undefined local)",
+             106: "event of a thread that runs no operation", 107: "construct the instrumenter does not translate",
+             108: "operations in flight at the end of the run / model not stuck at a reported deadlock"}
+
+
+def run_sched(rep, tier, seed, cmds, nm, replay=None):
+    """returns True if a concrete failing schedule was reported"""
+    ok, msg = gen_instr()
+    rep.obligation("generate:instrumented-copy", ok)
+    cmds.append("go build harness/tools/instr && instr -repo $REPO -file %s -out out/C07/repository_impl_instrumented.go" % SKEL_SRC)
+    if not ok:
+        rep.notes.append(msg)
+        rep.obligation("stream:sched", False)
+        rep.violation({"kind": "correspondence-broken", "stream": "sched", "why": "the instrumented copy cannot be produced",
+                       "detail": msg[-1500:], "case": None}, no_input=True)
+        return False, []
+    n = SCHED["n_quick"] if tier == "quick" else SCHED["n_thorough"]
+    summ = os.path.join(OUTD, "sched_summary.json")
+    env = {"VERIF_SEED": seed, "VERIF_N": n, "VERIF_TIER": tier, "VERIF_C07_SKEL": os.path.join(OUTD, "skel.json"),
+           "VERIF_C07_INSTR": INSTR_JSON, "VERIF_C07_SUMMARY": summ}
+    if replay:
+        rp = os.path.join(OUTD, "sched_replay_in.json")
+        with open(rp, "w") as f:
+            json.dump(replay["case"]["in"], f)
+        env["VERIF_C07_SCHED_REPLAY"] = rp
+    if os.path.exists(summ):
+        os.remove(summ)
+    rc, out, obs_path = vf.go_run_driver(PID, SCHED["pkg"], SCHED["test"], sched_overlay(), env=env, race=False,
+                                         timeout=SCHED["timeout"], tag="sched")
+    cmds.append("go test -tags verif -overlay out/C07/overlay_sched.json -c ./internal/rules && driver -test.run ^TestVerifC07Sched$ "
+                "(VERIF_SEED=%s VERIF_N=%s; repository_impl.go replaced by its instrumented copy)" % (seed, n))
+    obs = read_obs_tolerant(obs_path)
+    for o in obs:
+        o["stream"] = "sched/" + (o.get("stream") or "")
+    if rc != 0 or not obs:
+        rep.obligation("stream:sched", False)
+        rep.notes.append("stream sched: driver failed\n" + out[-3000:])
+        rep.violation({"kind": "correspondence-broken", "stream": "sched",
+                       "why": "the schedule-exploration driver does not build or run against the instrumented copy of the current tree",
+                       "detail": out[-2000:], "case": None}, no_input=True)
+        return False, obs
+    try:
+        summary = json.load(open(summ))
+    except Exception:
+        summary = []
+    if summary:
+        ex = [s for s in summary if s["kind"] != "sampled"]
+        rep.notes.append("sched: %d schedules; %d tiny plans enumerated (%d completely, sleep-set reduction), %d larger plans sampled" %
+                         (len(obs), len(ex), sum(1 for s in ex if s["complete"]), len(summary) - len(ex)))
+    rows, shards, shards_ok, elog = vf.eval_cases(PID + "/sched", "Run.Eval_C07Sched", SCHED["check_term"], [o["coq"] for o in obs],
+                                                  shard_size=SCHED["shard"], extra_imports=skel_preamble())
+    cmds.append("coqc out/C07/sched/cases_*.v   (regenerated skeleton + `Eval vm_compute in results (check_sched repo_skel) cases`)")
+    if shards_ok != shards:
+        rep.obligation("stream:sched", False)
+        rep.notes.append("stream sched: model evaluation failed: " + elog[-2000:])
+        rep.violation({"kind": "correspondence-broken", "stream": "sched", "why": "model evaluation failed (Coq)", "case": None},
+                      no_input=True)
+        return False, obs
+    nviol, ntie, concrete = 0, 0, False
+    per_kind = {}
+    for pos, o in enumerate(obs):
+        r = rows.get(pos)
+        if r is None:
+            if replay:
+                print("REPLAY stream=sched schedule=%s verdict(corr,prop,diagnostics)=(True, True, []): the run is an execution of "
+                      "the skeleton, linearizable, race free" % o["in"]["schedule"])
+            continue
+        corr, prop, gs = r
+        if replay:
+            print("REPLAY stream=sched schedule=%s verdict(corr,prop,diagnostics)=%s" % (o["in"]["schedule"], (corr, prop, gs)))
+        ev = o["obs"].get("events", []) if isinstance(o["obs"], dict) else []
+        if not prop:
+            nviol += 1
+            kinds = [SCHED_KINDS[g] for g in gs if g in SCHED_KINDS] or ["property-fails-on-explored-schedule"]
+            if per_kind.get(kinds[0], 0) >= 2:
+                continue
+            per_kind[kinds[0]] = per_kind.get(kinds[0], 0) + 1
+            v = {"kind": kinds[0], "all_kinds": kinds, "stream": "sched", "stream_name": "sched", "case": o,
+                 "schedule": o["in"]["schedule"],
+                 "how": "the real repository code (instrumented copy), run under this schedule of lock boundaries, violates "
+                        "the property; the run is deterministic: bin/check C07 --replay <this file> repeats it",
+                 "run_is_execution_of_the_skeleton": not any(100 < g < 110 for g in gs), "diagnostics": gs}
+            if 200 in gs:
+                k = gs.index(200)
+                i, j = gs[k + 1], gs[k + 2]
+                # positions refer to the rendered items; `res` events are merged into their Clone
+                txt = [e for e in ev if "-> object" not in e.split(" ", 1)[1][:10]]
+                v["race"] = {"first": txt[i] if i < len(txt) else i, "second": txt[j] if j < len(txt) else j,
+                             "why": "conflicting accesses by different goroutines, not ordered by happens-before (program order, "
+                                    "Unlock -> later Lock/RLock, RUnlock -> later Lock of the same mutex)"}
+            rep.violation(v)
+            concrete = True
+        elif not corr:
+            ntie += 1
+            if ntie <= 2:
+                codes = [TIE_CODES[g] for g in gs if g in TIE_CODES]
+                rep.violation({"kind": "correspondence-broken", "stream": "sched", "stream_name": "sched", "case": o,
+                               "why": "the events logged by the instrumented code under this schedule are not an execution of the "
+                                      "skeleton extracted from the same file (or, literal plan, the results differ from repo_apply): "
+                                      + "; ".join(codes), "diagnostics": gs,
+                               "searched": "%d explored schedules, none violates the property" % len(obs)}, no_input=True)
+    rep.obligation("stream:sched", nviol == 0 and ntie == 0)
+    if nviol or ntie:
+        rep.notes.append("sched: %d schedules violate the property, %d break the tie with the skeleton" % (nviol, ntie))
+    if tier == "thorough" and not replay:
+        rc2, out2, _ = vf.go_run_driver(PID, SCHED["pkg"], "TestVerifC07SchedSelf", sched_overlay(), env=env, race=False,
+                                        timeout=SCHED["timeout"], tag="schedself")
+        rep.obligation("selftest:sleep-set-reduction", rc2 == 0)
+        if rc2 != 0:
+            rep.notes.append("sleep-set self-test failed: " + out2[-1500:])
+    return concrete, obs
+
+
 def selftest(rep, cmds):
     """self-tests of the extractor; the result is cached by the hash of its sources (they take ~15 s)"""
     import hashlib
@@ -279,16 +444,23 @@ def custom(P, tier, seed, replay=None):
         if not okc:
             proofs_ok = False
 
+    sched_replay = bool(replay) and replay.get("stream") == "sched"
+
     # 2. stress stream under the race detector
     n = STREAM["n_quick"] if tier == "quick" else STREAM["n_thorough"]
     if not wf_ok and ok:
         n = max(n, 6000)      # the skeleton check failed: look harder for a concrete failing run
     only = replay["case"]["i"] if replay and replay.get("case") else None
-    status, detail, obs = run_stress(rep, tier, seed, n, only=only)
+    if sched_replay:
+        status, detail, obs = "skipped", "", []
+    else:
+        status, detail, obs = run_stress(rep, tier, seed, n, only=only)
     cmds.append("go test -tags verif -race -overlay out/C07/overlay.json -c ./internal/rules && driver -test.run ^TestVerifC07$ "
                 "(VERIF_SEED=%s VERIF_N=%s)" % (seed, n))
     concrete = False
-    if status == "race":
+    if status == "skipped":
+        pass
+    elif status == "race":
         rep.obligation("stream:stress", False)
         rep.violation({"kind": "data-race-detected", "stream": "stress",
                        "how": "go test -race on the real repository with concurrent writers and readers reported a data race",
@@ -348,7 +520,7 @@ def custom(P, tier, seed, replay=None):
 
     # 2b. Tree.Clone is deep (structurally: no shared node / non-empty backing array; behaviourally: mutating the clone
     # leaves the source's answers unchanged), on trees with wildcards and catch-alls
-    if not replay or replay.get("stream") == "clone":
+    if (not replay or replay.get("stream") == "clone") and not sched_replay:
         nc = 300 if tier == "quick" else 3000
         cstatus, cdetail, cobs = run_stress(rep, tier, seed, nc, tag="clone", test="TestVerifC07Clone",
                                             only=(replay["case"]["i"] if replay and replay.get("case") else None))
@@ -370,13 +542,19 @@ def custom(P, tier, seed, replay=None):
             o["stream"] = "clone/"
         obs = obs + cobs
 
+    # 2c. every lock-boundary schedule of tiny plans (and sampled schedules of larger ones) on the instrumented copy
+    if ok and (not replay or sched_replay):
+        c2, sobs = run_sched(rep, tier, seed, cmds, nm, replay=replay if sched_replay else None)
+        concrete = concrete or c2
+        obs = obs + sobs
+
     # 3. the skeleton no longer passes the check and the stress run found nothing concrete
     if ok and not wf_ok and not concrete:
         rep.violation({"kind": "proof-obligation-broken",
                        "obligation": "Example repo_skel_wf : wf_skel repo_wlock repo_skel = true   (coq/Gen/RepoSkel.v, regenerated from "
                                      + SKEL_SRC + ")",
                        "counterexample_schedules": cex,
-                       "searched": "%d stress histories under -race without a failing run" % len(obs),
+                       "searched": "%d stress histories under -race and explored schedules without a failing run" % len(obs),
                        "theorems": P["theorems"], "case": None}, no_input=True)
     elif ok and not wf_ok and rep.violations:
         # attach the schedules to the concrete replay as well (already included above)
@@ -405,8 +583,8 @@ def custom(P, tier, seed, replay=None):
 P = {
     "id": PID,
     "claimed": True,
-    "coq_targets": ["Base/Locks.vo", "C07/Model.vo", "C07/Lin.vo", "C07/Proofs.vo", "C07/Examples.vo", "Gen/RepoSkel.vo", "C07/Repo.vo", "Properties/C07.vo",
-                    "Run/Eval_C07.vo"],
+    "coq_targets": ["Base/Locks.vo", "C07/Model.vo", "C07/Lin.vo", "C07/Proofs.vo", "C07/Examples.vo", "Gen/RepoSkel.vo", "C07/Repo.vo", "C07/Sched.vo",
+                    "Properties/C07.vo", "Run/Eval_C07.vo", "Run/Eval_C07Sched.vo"],
     "theorems_module": "Properties.C07",
     "theorems": ["C07_no_crash", "C07_drf", "C07_mutual_exclusion", "C07_deadlock_free", "C07_linearizable",
                  "C07_history_is_the_execution", "C07_readers_see_committed_state", "C07_real_time_order",
